@@ -6,6 +6,7 @@ REPO=${VERIF_REPO:-/repo}
 export GOFLAGS=-mod=mod GOPROXY=off GOSUMDB=off GOTOOLCHAIN=local
 GROUP=$1; OUT=$2
 TARGET=""
+EXTRA_TARGETS=""
 [ -x "$VERIF/bin/vinstr" ] || (cd "$VERIF/tools/vinstr" && go build -o "$VERIF/bin/vinstr" .)
 mkdir -p "$OUT/ov"
 case "$GROUP" in
@@ -30,7 +31,17 @@ case "$GROUP" in
     KEEP=""
     TARGET=./apps/nsq_to_file
     ;;
+  relayx)
+    PKGS="./internal/stringy"
+    MOUNT="$VERIF/harness/apps/to_nsq=apps/to_nsq,$VERIF/harness/apps/nsq_to_nsq=apps/nsq_to_nsq,$VERIF/harness/apps/nsq_to_http=apps/nsq_to_http"
+    KEEP=""
+    TARGET=./apps/to_nsq
+    EXTRA_TARGETS="nsq_to_nsq nsq_to_http"
+    ;;
   *) echo "unknown group $GROUP"; exit 2;;
 esac
 "$VERIF/bin/vinstr" -repo "$REPO" -out "$OUT/ov" -rt "$VERIF/rt" -mount "$MOUNT" -keep "$KEEP" $PKGS >/dev/null
 cd "$REPO" && go build -overlay "$OUT/ov/overlay.json" -tags verif -o "$OUT/h" ${TARGET:-./internal/verif/cmd/$GROUP}
+for t in $EXTRA_TARGETS; do
+  go build -overlay "$OUT/ov/overlay.json" -tags verif -o "$OUT/h_$t" ./apps/$t
+done
